@@ -48,9 +48,14 @@ Theorem C11x_order :
     exists l', L = x_written st ++ l'.
 Proof. intros O n tin tout ultra st L R H1 H2. exact (proj1 (C10_speculation_free_gen O n tin tout ultra st L R H1 H2)). Qed.
 
-(* safety part of deadlock freedom: the asserts guarding attach() never fire (C10_no_stale_attach).
-   C11x_progress (every non-final, non-failed reachable state has a productive enabled
-   event) and termination are NOT proved for the decompressor: missing is the case analysis
-   "work_units = 0 or out_slots <= EMIT_THRESH: the block at the head of order_q can always
-   proceed" with the unord_q/order_q ownership invariant; liveness is supported only by the
-   watchdog-timed runs of the direct tests. *)
+(* Deadlock freedom.  Safety part: the asserts guarding attach() never fire
+   (C10_no_stale_attach), resources are conserved (C11x_conserve).
+   C11x_progress (every non-final, non-failed reachable state has an enabled event) and
+   termination are NOT proved for the decompressor.  For the source with `pos_eq` in the
+   second disjunct of can_emit() progress is REFUTED: SchedX/XF8Refuted.v
+   (C11x_progress_refuted, finding F8: a rejected candidate at the minimum of emit_q blocks
+   the reserved output slots for ever; reproduced on the binary, repair = pos_le,
+   notes/fix_F8_deadlock.diff).  For the repaired guard the missing proof is the case
+   analysis "out_slots <= EMIT_THRESH or work_units = 0: the job at or before the head of
+   order_q can always proceed" together with the ownership invariant of unord_q/order_q;
+   until then liveness is supported only by the watchdog-timed runs of the direct tests. *)
